@@ -537,6 +537,9 @@ func restRawStep(ev tr.Ev, hc *http.Client, base string, st restStep, id string)
 	}
 	data, rerr := io.ReadAll(resp.Body)
 	_ = resp.Body.Close()
+	if st.Route == "uiget" {
+		restAttachProbes(ev, hc, base, ui, id)
+	}
 	ev["code"] = resp.StatusCode
 	ev["st"] = restStatusClass(resp.StatusCode)
 	if rerr != nil {
@@ -583,6 +586,26 @@ func restRawStep(ev tr.Ev, hc *http.Client, base string, st restStep, id string)
 	case "uihtml":
 		ev["resp"] = tr.Ev{"html": restHashBody(string(data))}
 	}
+}
+
+// restAttachProbes requests attachments of the message by numbers no message has (the driver's messages carry none): the
+// links the API hands out for attachments lead to this route.  Only whether each request was answered is recorded.
+func restAttachProbes(ev tr.Ev, hc *http.Client, base, ui, id string) {
+	probes := []tr.Ev{}
+	for _, num := range []string{"0", "7", "-1", "-2147483648", "%2D1", "4294967296", "x"} {
+		pe := tr.Ev{"num": num, "c": 0}
+		if req, err := http.NewRequest("GET", base+ui+"/"+id+"/attach/"+num+"/file.bin", nil); err == nil {
+			if resp, err := hc.Do(req); err == nil {
+				_, _ = io.Copy(io.Discard, resp.Body)
+				_ = resp.Body.Close()
+				pe["c"] = resp.StatusCode
+			} else {
+				pe["err"] = err.Error()
+			}
+		}
+		probes = append(probes, pe)
+	}
+	ev["attach"] = probes
 }
 
 func restClientHdr(h *client.MessageHeader) tr.Ev {
